@@ -12,4 +12,5 @@ Definition output_actual : oquirks := {|
   q_text_omit_zero := true;
   q_text_raw_newline := true;
   q_group_missing_config_ignored := true;
-  q_dry_empty_config_crashes := true |}.
+  q_dry_empty_config_crashes := true;
+  q_valueerror_aborts_run := true |}.
